@@ -286,10 +286,12 @@ fn structured(n: usize, shuffles: u32, seed: u64) -> Vec<Vec<usize>> {
     let mut out = vec![id.clone()];
     if n > 1 {
         out.push(id.iter().rev().copied().collect());
-        for r in 1..n {
+        // all rotations / adjacent transpositions up to 80 chunks, an even sample of 40 beyond
+        let step = if n > 80 { n / 40 } else { 1 };
+        for r in (1..n).step_by(step) {
             out.push((0..n).map(|i| (i + r) % n).collect());
         }
-        for t in 0..n - 1 {
+        for t in (0..n - 1).step_by(step) {
             let mut p = id.clone();
             p.swap(t, t + 1);
             out.push(p);
@@ -382,8 +384,13 @@ impl Check for C04Check {
         if r.chance(1, 12) {
             size = *r.pick(&[1usize, len, len + 1, len.saturating_sub(1).max(1), 65535]);
         }
-        if len.div_ceil(size) > 64 {
-            size = len.div_ceil(64);
+        // scale: every 97th scenario keeps up to 700 chunks (more than any 8-bit index can hold)
+        let max_chunks = if index % 97 == 13 { 700 } else { 64 };
+        if index % 97 == 13 {
+            size = *r.pick(&[1usize, 2, 3]);
+        }
+        if len.div_ceil(size) > max_chunks {
+            size = len.div_ceil(max_chunks);
         }
         size = size.clamp(1, 65535);
         let n = len.div_ceil(size).max(1);
@@ -598,6 +605,9 @@ impl Check for C04Check {
         }
         if n_sent >= 40 {
             stats.probe("n_chunks_ge_40");
+        }
+        if n_sent > 255 {
+            stats.probe("n_chunks_gt_255");
         }
         if scn.chunk_size == 65535 {
             stats.probe("chunk_size_65535");
